@@ -69,7 +69,10 @@ ASSUMPTIONS = [
     'or R1C1 notation; up to 255 characters; no two differing by case only). Sheet-local names (localSheetId) '
     'and Excel\'s built-in _xlnm.* names are outside the domain: openpyxl turns the built-in ones into print '
     'settings / filters and never hands them over as defined names, and the model has one flat name space',
-    'date-styled numbers are serials >= 61 in the 1900 system with a time part that is a multiple of 1/8 day',
+    'date-styled numbers (date and date-time formats) are serials >= 61 in the 1900 system, or >= 62 in the 1904 '
+    'system (<workbookPr date1904="1"/>, 35 % of the workbooks), with a time part that is a multiple of 1/8 day; the '
+    'expected datetime is computed by the harness from the serial and the epoch (the Lean model is sent the '
+    'serial converted to the 1900 system: the epoch shift is part of the hand-modelled openpyxl contract)',
     'an empty <v/> with t="str" or t="e" (read as "no value" by openpyxl) is not generated',
     'placeholder cells that build_ranges adds for members of referenced areas are allowed by the statement as '
     'long as they are empty (no value, no formula)',
@@ -299,7 +302,8 @@ _STYLES = ('<?xml version="1.0" encoding="UTF-8" standalone="yes"?>\n'
            '<fills count="1"><fill><patternFill patternType="none"/></fill></fills>'
            '<borders count="1"><border/></borders>'
            '<cellStyleXfs count="1"><xf numFmtId="0" fontId="0" fillId="0" borderId="0"/></cellStyleXfs>'
-           '<cellXfs count="2"><xf numFmtId="0" fontId="0" fillId="0" borderId="0" xfId="0"/>'
+           '<cellXfs count="3"><xf numFmtId="0" fontId="0" fillId="0" borderId="0" xfId="0"/>'
+           '<xf numFmtId="22" fontId="0" fillId="0" borderId="0" xfId="0" applyNumberFormat="1"/>'
            '<xf numFmtId="14" fontId="0" fillId="0" borderId="0" xfId="0" applyNumberFormat="1"/></cellXfs>'
            '<cellStyles count="1"><cellStyle name="Normal" xfId="0" builtinId="0"/></cellStyles>'
            '</styleSheet>')
@@ -316,7 +320,7 @@ def num_literal(kind, v):
     return s
 
 
-def cell_xml(c):
+def cell_xml(c, date1904=False):
     """One <c> element in the storage form of the abstract cell."""
     r = col_name(c['col']) + str(c['row'])
     st, f = c['st'], c['f']
@@ -329,8 +333,10 @@ def cell_xml(c):
         attrs = ' t="n"' if (c['col'] + c['row']) % 3 == 0 else ''
         inner = '<v>%s</v>' % num_literal(k, st[1])
     elif k in ('DI', 'DF'):
-        attrs = ' s="1"'
-        inner = '<v>%s</v>' % num_literal(k, st[1])
+        # date-formatted (s=2) or date-time-formatted (s=1); the abstract serial is in the 1900 system, the file
+        # holds it in the workbook's own date system (1904: 1462 days less)
+        attrs = ' s="%d"' % (1 + (c['col'] + c['row']) % 2)
+        inner = '<v>%s</v>' % num_literal(k, Fraction(st[1]) - (1462 if date1904 else 0))
     elif k == 'S':
         attrs = ' t="s"'
         inner = '<v>%d</v>' % st[1]
@@ -374,7 +380,8 @@ def write_xlsx(path, wb):
                     quoteattr(d['name']), ' hidden="1"' if d['hidden'] else '', escape(target_text(d['target'])))
                 for d in wb['names']) + '</definedNames>'
         z.writestr('xl/workbook.xml', '<?xml version="1.0" encoding="UTF-8" standalone="yes"?>\n'
-                   '<workbook %s><sheets>%s</sheets>%s</workbook>' % (_NS, sh, dn))
+                   '<workbook %s>%s<sheets>%s</sheets>%s</workbook>' % (
+                       _NS, '<workbookPr date1904="1"/>' if wb.get('date1904') else '', sh, dn))
         n = len(sheets)
         rl = ''.join('<Relationship Id="rId%d" Type="%s" Target="worksheets/sheet%d.xml"/>' % (i + 1, _WS_TYPE, i + 1)
                      for i in range(n))
@@ -389,9 +396,9 @@ def write_xlsx(path, wb):
             rows = []
             for c in s['cells']:                       # document order = order of the abstract cells
                 if rows and rows[-1][0] == c['row']:
-                    rows[-1][1].append(cell_xml(c))
+                    rows[-1][1].append(cell_xml(c, wb.get('date1904', False)))
                 else:
-                    rows.append((c['row'], [cell_xml(c)]))
+                    rows.append((c['row'], [cell_xml(c, wb.get('date1904', False))]))
             body = ''.join('<row r="%d">%s</row>' % (r, ''.join(cs)) for r, cs in rows)
             z.writestr('xl/worksheets/sheet%d.xml' % (i + 1),
                        '<?xml version="1.0" encoding="UTF-8" standalone="yes"?>\n'
@@ -1146,6 +1153,13 @@ class Gen:
                     c['st'] = ['I', 999]                  # stale cache
                 else:
                     c['st'] = gen_cached_other(rng)
+        # the workbook's date system: 1900 (default) or 1904 (<workbookPr date1904="1"/>)
+        if rng.random() < 0.35:
+            wb['date1904'] = True
+            for sh in wb['sheets']:
+                for c in sh['cells']:
+                    if c['st'] is not None and c['st'][0] in ('DI', 'DF') and Fraction(c['st'][1]) < 1524:
+                        c['st'] = [c['st'][0], str(Fraction(c['st'][1]) + 2000)]
         return wb
 
 
@@ -1218,6 +1232,14 @@ def fixed_workbooks():
                    {'name': 'S2', 'cells': [_c(1, 1, ['P', [pfx_for("It's"), CELL(1, 1), L('+'), L('1')]], ['I', 9])]}],
         'names': [{'name': 'ap', 'hidden': False, 'target': ['T', "It's", True, True, 1, True, 1]},
                   {'name': 'apr', 'hidden': False, 'target': ['T', "It's", True, True, 1, True, 1, True, 1, True, 2]}]}))
+    # the 1904 date system: date-, date-time-formatted constants and cached results (1900-serial 43906 = file serial 42444 there)
+    out.append(('date1904', {
+        'date1904': True, 'sst': [],
+        'sheets': [{'name': 'Dates', 'cells': [
+            _c(1, 1, None, ['DI', 43906]), _c(2, 1, None, ['DF', '87813/2']), _c(3, 1, None, ['DI', 1524]),
+            _c(1, 2, ['P', [CELL(1, 1), L('+'), L('1')]], ['DI', 43907]),
+            _c(2, 2, ['P', [CELL(2, 1), L('+'), L('1')]], ['DF', '351259/8']), _c(3, 2, None, ['I', 43906])]}],
+        'names': []}))
     # every shape of defined name Excel allows, for a cell and for an area, used in formulas
     shapes = ['_rate', '\\rate', '_', '\\', 'a.b.c', 'Rate_2', 'myName', 'A1B', 'R2D2x', 'TRUE1', 'SUMX', 'q?x', 'été',
               'x' * 64, 'Long_' + 'n' * 200 + '.z']
@@ -1596,7 +1618,7 @@ def run(ctx):
     res = Result()
     res.rule = ('real .xlsx packages written from raw XML: 1-4 sheets (plain names, names needing quotes, with '
                 'apostrophes, with "!" and "$"), 2-5 x 2-6 grids with every storage form (n int/float, s, str, inlineStr, '
-                'b, e, date-styled, empty; formulas with every kind of cached result or none; shared masters with '
+                'b, e, date- and date-time-styled in the 1900 or the 1904 date system, empty; formulas with every kind of cached result or none; shared masters with '
                 'members in rows, columns, rectangles and scattered, mixed $ references, cross-sheet references, '
                 'reference-like text literals; in half of the multi-sheet workbooks the same unqualified formula texts and '
                 'a same-text shared group on 2-4 sheets over different data), 0-4 defined names of every shape Excel accepts (leading "_" or backslash, dots, digits, "?", mixed '
